@@ -4,7 +4,8 @@
 (* patterns of DailyModel / BillingModel predict.                          *)
 (*   in  = [fam, rows]   rows[i] = [T, obs]                                 *)
 (*           T   in {"fin", "nan", "inf", "ninf"}   temperature of the row  *)
-(*           obs in {"fin", "nan"}                   usage of the row       *)
+(*           obs in {"fin", "nan"}                   usage of the row (a    *)
+(*                 finite reading may be negative)                          *)
 (*   out = [res, rows_ok, rows, obsCol, sumPred, sumObs, sumRow]            *)
 (*           rows[i] = [pred, obs, obsSame, predRight]                      *)
 (*             pred/obs in {"fin", "nan"}; obsSame: the observed value is   *)
@@ -28,7 +29,9 @@ ExpSumPred(in) == SumUpTo([k \in 1..Len(in.rows) |-> Curve(in.model, in.rows[k].
 ExpSumObs(in)  == SumUpTo([k \in 1..Len(in.rows) |-> in.rows[k].ov], in, Len(in.rows))
 
 \* exact integer arithmetic applies when every usable row carries integer temperature and usage (the drivers arrange that)
-AllInt(in) == \A i \in 1..Len(in.rows) : Usable(in, i) => (in.rows[i].Tint /\ in.rows[i].ov >= 0)
+\* (a usage reading may be negative - net export, a billing credit -: such readings are realised as integers <= -1000; the small
+\*  negative numbers -1, -2, -7 are the drivers' markers for "finite but not an integer")
+AllInt(in) == \A i \in 1..Len(in.rows) : Usable(in, i) => (in.rows[i].Tint /\ (in.rows[i].ov >= 0 \/ in.rows[i].ov <= -1000))
 Clauses(in, out) ==
   LET n == Len(in.rows)
       ok == out.res = "ok" /\ Len(out.rows) = n IN
